@@ -1,6 +1,6 @@
 (* Props_C02.v — property C02 (canonical invocation envelope). *)
 Require Import Base Syntax Front Plan.
-Require Import gen.CmpTable.
+Require Import gen.CmpTable gen.CounterFacts.
 Require Import spec.Spec_C02 proofs.PlanProofs proofs.C02Proofs proofs.CountsProofs.
 Open Scope N_scope.
 
@@ -89,16 +89,43 @@ Theorem C02_pack_unpack : forall a b c d,
 Proof. exact pack_unpack_below_16. Qed.
 Print Assumptions C02_pack_unpack.
 
-(* "rejected rather than emitted with a counts word that overflows": false today (F6) —
-   16 objects are accepted by the interface verifier and counted as 16 *)
+(* "rejected rather than emitted with a counts word that overflows".  The pinned upstream Counter
+   had no limit: 16 objects were accepted by the interface verifier, counted as 16 and packed
+   into a word that reads back as one output object (F6): *)
 Open Scope string_scope.
-Theorem C02_limit_refuted :
+Theorem C02_limit_refuted_upstream :
   let ps := [mkMP false (MIface None) (PArr (Some 16%N)) "a"] in
   check_params ps false false false false = Ok tt /\
-  counter Debug ps = Ok (mkCounts 0 0 16 0) /\
   unpack_counts (pack_counts (0, 0, 16, 0)) = (0, 0, 0, 1).
 Proof. repeat split; vm_compute; reflexivity. Qed.
-Print Assumptions C02_limit_refuted.
+Print Assumptions C02_limit_refuted_upstream.
+
+(* the repaired Counter (regenerated fact counter_checked) refuses every parameter list that
+   needs more than 15 slots of a class, in both build modes: whatever it accepts fits the word *)
+Theorem C02_counts_fit_the_word : counter_checked = true -> forall ps c,
+  counter Debug ps = Ok c ->
+  nbi c <= counter_limit /\ nbo c <= counter_limit /\ noi c <= counter_limit /\ noo c <= counter_limit.
+Proof. intros H ps c. now apply counter_within_limit. Qed.
+Print Assumptions C02_counts_fit_the_word.
+
+(* hence, for the tree being checked, the envelope of every accepted method outside the two
+   classes is canonical, without assuming anything about the counts *)
+Theorem C02_envelope_canonical_current : forall ps c,
+  has_objstruct_value ps = false -> objarr_after_out ps = false ->
+  counter Debug ps = Ok c ->
+  envelope_canonical (nbi c, nbo c, noi c, noo c) (plan_secs ps) = true.
+Proof.
+  intros ps c H1 H2 Hc.
+  destruct (counter_within_limit ps c eq_refl Hc) as (A & B & C & D).
+  apply envelope_is_canonical; assumption.
+Qed.
+Print Assumptions C02_envelope_canonical_current.
+
+Theorem C02_limit_current :
+  counter Debug [mkMP false (MIface None) (PArr (Some 16%N)) "a"] = Reject RCountLimit /\
+  counter Release [mkMP false (MIface None) (PArr (Some 16%N)) "a"] = Reject RCountLimit.
+Proof. split; vm_compute; reflexivity. Qed.
+Print Assumptions C02_limit_current.
 
 (* non-vacuity of the restricted theorem *)
 Example C02_nonvacuous :
